@@ -47,6 +47,9 @@ def one_set(draw, allow_semicolon=True):
     return [name, v]
 
 
+UNKNOWN_PROPS = ["{http://example.com/ns/xv/}nickname", "{http://example.com/ns/xv/}sort-key", "{DAV:}xv-unknown"]
+
+
 @st.composite
 def props_program(draw):
     cfg = {"prefix": draw(st.sampled_from(gen_prog.PREFIXES)), "seed": []}
@@ -92,7 +95,13 @@ def props_program(draw):
             sets = [draw(one_set(semi)) for _ in range(draw(st.sampled_from([1, 1, 2])))]
             for k_, v_ in sets:
                 last_set[(coll, k_)] = v_
-            steps.append({"op": "PROPPATCH", "fe": fe, "afe": afe, "coll": coll, "set": sets, "remove": []})
+            if draw(st.integers(0, 3)) == 0:
+                # properties the server does not know mixed in, all inside one DAV:prop (or each in its own DAV:set)
+                instr = [["set", k_, v_] for k_, v_ in sets]
+                instr.insert(draw(st.integers(0, len(instr))), ["set", draw(st.sampled_from(UNKNOWN_PROPS)), draw(st.sampled_from(["Other", "", "zz top"]))])
+                steps.append({"op": "PROPPATCH", "fe": fe, "afe": afe, "coll": coll, "instr": instr, "grouped": draw(st.booleans())})
+            else:
+                steps.append({"op": "PROPPATCH", "fe": fe, "afe": afe, "coll": coll, "set": sets, "remove": []})
         elif op == "REMOVE":
             if draw(st.booleans()):
                 steps.append({"op": "PROPPATCH", "fe": fe, "afe": afe, "coll": coll, "set": [], "remove": [draw(one_set())[0]]})
@@ -113,7 +122,10 @@ def props_program(draw):
             kind = draw(st.sampled_from(["ext-calendar", "mkcalendar", "ext-addressbook"]))
             slot = draw(st.sampled_from(["c2", "n1"]))
             # resourcetype anywhere among the properties, each in its own DAV:set or all in one DAV:prop
-            steps.append({"op": "MKCOL", "fe": fe, "afe": afe, "coll": slot, "kind": kind, "props": [draw(one_set()) for _ in range(draw(st.integers(1, 3)))], "rt_pos": draw(st.integers(0, 3)), "one_prop": draw(st.booleans())})
+            mprops = [draw(one_set()) for _ in range(draw(st.integers(1, 3)))]
+            if draw(st.integers(0, 3)) == 0:
+                mprops.insert(draw(st.integers(0, len(mprops))), [draw(st.sampled_from(UNKNOWN_PROPS)), "Other"])
+            steps.append({"op": "MKCOL", "fe": fe, "afe": afe, "coll": slot, "kind": kind, "props": mprops, "rt_pos": draw(st.integers(0, 3)), "one_prop": draw(st.booleans())})
             colls.append(slot)
         elif op == "RETYPE":
             # resourcetype set again to the type the collection has, alone or among other instructions
